@@ -3,8 +3,8 @@
    over the callback, the numeric kernel (opaque payload P), the configuration C (initial tensor shapes of any
    dimension / mode sizes / ranks, stop arguments, rank-growth window) and the number of sweeps allowed (fuel). *)
 From Coq Require Import List Arith Lia PeanoNat Bool ZArith.
-From TV Require Import Num.Ops Lin.BigSum Model.Cross Proofs.CrossIdx Proofs.CrossGeo Proofs.CrossP Proofs.Cross05P
-  Proofs.Cross05PSim Proofs.Cross05PInterp Proofs.Cross05PEx.
+From TV Require Import Num.Ops Lin.BigSum Lin.Mat TT.Chain Model.Cross Model.CrossNum Proofs.CrossIdx Proofs.CrossGeo
+  Proofs.CrossP Proofs.Cross05P Proofs.Cross05PSim Proofs.Cross05PInterp Proofs.Cross05PNum Proofs.Cross05PEx.
 Import ListNotations.
 
 Section C05.
@@ -168,3 +168,88 @@ Example C05_cross_exact_example_values :
                 bsum OZ (length L') (fun a => Z.mul (v' a) (AZ (nth a L' []))))
       [[0; 0]; [1; 0]; [0; 1]; [1; 1]] = [1; 2; 2; 4]%Z.
 Proof. exact ex_ltr_values. Qed.
+
+(* ================================================================================================================
+   The instantiated model Model/CrossNum.v: payload = cores as nested lists, the kernel operations of Model/Cross.v
+   filled with the array operations of cross.py (_func reshape, unfolding, QR, utils._maxvol incl. its eye(N) branch,
+   core = Fortran reshape of B, pending factor Q[ind] R, tensordot folds).  qr / mvI / mvB are the external routines;
+   their contracts are required only on the matrices they are actually given. *)
+Section C05model.
+Context {T : Type} (K : ops T).
+Hypothesis Rth : rng K.
+Variable qr : mat T -> mat T * mat T.
+Variable mvI : mat T -> nat -> nat -> list nat.
+Variable mvB : mat T -> list nat -> mat T.
+Variable A : row -> T.
+
+(* iter_realises_scheme: at a left-to-right position with left index set Ir, right index set Ic, mode size n, the
+   value array is the target on  Ir x [n] x Ic  (Zval), and what the model's _iter computes from it - the rows [ind]
+   of utils._maxvol, the matrix B behind the core, the pending factor Q[ind] R - is one position of the scheme of
+   C05_cross_exact_cond: rows in range, B Z[ind] = Z on the sampled columns (samp_ok), factor = target values at the
+   selected candidate rows; given Z = Q R for this Z and B Q[ind] = Q for this Q *)
+Theorem C05_iter_realises_scheme :
+  forall (Ir Ic : option rows) (n k dmin dmax : nat),
+  let r1 := rk Ir in let r2 := rk Ic in
+  let p := pvalsN K r1 n r2 (map A (batch n Ir Ic)) in
+  let Zm := unfoldZ K true r1 n r2 p in
+  let ind := maxvol_w (pickN K qr mvI) k true (mkc r1 n r2 p) dmin dmax in
+  qr_ok_at K qr Zm -> mv_ok_at K mvI mvB (fst (qr Zm)) dmin dmax ->
+  Forall (fun t => t < length (orl Ir) * n) ind /\
+  samp_ok K A (orl Ir) n ind (fun t s => mget K (Bof K qr mvB true r1 n r2 p ind) t s) (orl Ic) /\
+  (forall b c, b < length ind -> c < r2 ->
+     mget K (mmul K (mrows K (fst (qr Zm)) ind) (snd (qr Zm))) b c =
+     A (cand (orl Ir) (nth b ind O) ++ nth c (orl Ic) [])).
+Proof. exact (iter_ltr_realises K Rth qr mvI mvB A). Qed.
+
+Variable isinf : T -> bool.
+Variable f : nat -> rows -> option (list T).
+Variable cb : option (nat -> bool).
+Variable erank : nat -> list (@mcore (core T)) -> T.
+Variable accuracy : nat -> list (@mcore (core T)) -> list (@mcore (core T)) -> T.
+Variable accdata : nat -> list (@mcore (core T)) -> T.
+Variable C : @cfg T (core T).
+Notation stepN := (step K isinf f cb (ponesN K) (pdotLN K) (pdotRN K) (pvalsN K) (pickN K qr mvI)
+                        (pcoreGN K qr mvB) (pfacRN K qr) erank accuracy accdata C).
+Notation runN := (run K isinf f cb (ponesN K) (pdotLN K) (pdotRN K) (pvalsN K) (pickN K qr mvI)
+                      (pcoreGN K qr mvB) (pfacRN K qr) erank accuracy accdata C).
+
+(* cross_exact, left-to-right half sweep of the model driver, from any state s0 at the head of a sweep (no stop
+   pending, no cache, no budget, objective = target): if at every position i the sampled columns span the unfolding
+   of the target on the candidate rows (genericity; C05_span_of_rank derives it from TT-rank rho and invertible
+   intersections) and QR / maxvol meet their contracts on the matrices of that position (pos_ok), then after the d
+   steps of the half sweep the cores held by the driver (the last one with the pending factor folded in) evaluate
+   to the target at EVERY multi-index.  Any d >= 1, mode sizes, working ranks, rank growth window. *)
+Theorem C05_cross_exact_ltr :
+  (forall k I, f k I = Some (map A I)) -> m_max C = None ->
+  forall s0, 1 <= d C -> s_pc s0 = Run true true 0 -> k_stop (sK s0) = None -> k_cache (sK s0) = None ->
+  length (sY s0) = d C -> length (sIr s0) = S (d C) ->
+  nth 0 (sIr s0) None = None -> nth (d C) (sIc s0) None = None ->
+  (forall i, i < d C -> pos_ok K qr mvI mvB A C s0 i (iterate stepN i s0)) ->
+  forall q, Forall2 lt q (nsN C) -> ttval K (sY (iterate stepN (d C) s0)) q = A q.
+Proof. exact (cross_exact_ltr K Rth qr mvI mvB A isinf f cb erank accuracy accdata C). Qed.
+
+(* the same for the model run itself: s0 = state after the pre-iteration and [fuel] complete sweeps of cross_num *)
+Theorem C05_cross_exact :
+  (forall k I, f k I = Some (map A I)) -> m_max C = None ->
+  forall fuel, Y0_ok (ponesN K) C -> pick_ok (pickN K qr mvI) -> c_cache C = None ->
+  s_pc (runN fuel) = Run true true 0 -> k_stop (sK (runN fuel)) = None ->
+  qr_ok K qr -> mv_ok K mvI mvB ->
+  (forall i, i < d C ->
+     span_ok K A (orl (nth i (sIr (iterate stepN i (runN fuel))) None)) (nth i (nsN C) O)
+             (orl (nth (S i) (sIc (runN fuel)) None)) (okS (skipn (S i) (nsN C)))) ->
+  forall q, Forall2 lt q (nsN C) -> ttval K (sY (iterate stepN (d C) (runN fuel))) q = A q.
+Proof. exact (cross_exact_run K Rth qr mvI mvB A isinf f cb erank accuracy accdata C). Qed.
+End C05model.
+
+(* non-vacuity: over Z, two modes of size 2, target A[i, j] = (i+1)(j+1), "QR" = (Z, identity), "maxvol" = row 0
+   with B = Q: every hypothesis of C05_cross_exact_ltr holds for the state after the pre-iteration ... *)
+Example C05_cross_exact_ltr_example :
+  1 <= d CN /\ s_pc s0N = Run true true 0 /\ k_stop (sK s0N) = None /\ k_cache (sK s0N) = None /\
+  length (sY s0N) = d CN /\ length (sIr s0N) = S (d CN) /\ nth 0 (sIr s0N) None = None /\
+  nth (d CN) (sIc s0N) None = None /\
+  (forall i, i < d CN -> pos_ok OZ qrI mvI0 mvB0 AZ CN s0N i (iterate stepZN i s0N)).
+Proof. exact ex_num_hyps. Qed.
+(* ... and the half sweep of the instantiated model returns the four entries of the target *)
+Example C05_cross_exact_ltr_example_values :
+  map (ttval OZ (sY (iterate stepZN 2 s0N))) [[0; 0]; [1; 0]; [0; 1]; [1; 1]] = [1; 2; 2; 4]%Z.
+Proof. exact ex_num_values. Qed.
